@@ -283,6 +283,9 @@ def run_join(eng, p):
         def tostring(self, sections=None):
             return "[cfg of source]"
 
+    def io_vals(k):
+        return [eng.int("io%d_%d" % (k, i)) for i in range(2)]
+
     class Export:
         def __init__(self, src):
             self.src = src
@@ -318,8 +321,7 @@ def run_join(eng, p):
             if f == "frame":
                 return SArr(self.src.frame_vals, np.uint64)
             if f == "index_online":
-                return SArr([eng.int("io%d_%d" % (self.src.k, i))
-                             for i in range(2)], int)
+                return SArr(io_vals(self.src.k), int)
             return SArr([Tok("src%d:%s" % (self.src.k, f), i)
                          for i in range(2)], float)
 
@@ -335,7 +337,16 @@ def run_join(eng, p):
                 any("index_online" in fs for _, fs in rec["exports"])
 
         def __getitem__(self, k):
-            return SArr([eng.int("stored_io_last")], int)
+            # the index_online values written so far (export of the first
+            # input, then every stored block, in order)
+            out = []
+            for sk, fs in rec["exports"]:
+                if "index_online" in fs:
+                    out += io_vals(sk)
+            for sk, f, data in rec["stored"]:
+                if f == "index_online":
+                    out += list(data)
+            return SArr(out, int)
 
     class RTDCWriter:
         def __init__(self, *a, **k):
@@ -449,6 +460,21 @@ def run_join(eng, p):
                 d = z3.ToReal(toint(got) - orig.e) - dt * srcs[s].fr.e
                 eng.prove(z3.And(d <= 0.5, d >= -0.5),
                           "join: frame continued by round(offset * rate)")
+        elif f == "index_online":
+            prev = []
+            for sk, fs in rec["exports"]:
+                if "index_online" in fs:
+                    prev += [z3.Int("io%d_%d" % (sk, i)) for i in range(2)]
+            for s2, f2, d2 in rec["stored"]:
+                if d2 is data:
+                    break
+                if f2 == "index_online":
+                    prev += [toint(x) for x in list(d2)]
+            off = prev[-1] + 1 if prev else z3.IntVal(0)
+            for i, got in enumerate(list(data)):
+                eng.prove(toint(got) == z3.Int("io%d_%d" % (s, i)) + off,
+                          "join: index_online continued after the last "
+                          "index written so far")
         elif f not in ("index_online",):
             eng.prove(z3.BoolVal(all(isinstance(x, Tok) and
                                      x.src == "src%d:%s" % (s, f)
@@ -609,6 +635,20 @@ def replay(case, params, v):
                                 "chronological order is %r (times %r)" % (
                                     got[::2], exp_order,
                                     [s["t"] for s in srcs]))
+                    if "index_online" in ev and not fails:
+                        io = [int(x) for x in ev["index_online"][:]]
+                        # inputs hold index_online = [0, 1]; every appended
+                        # input continues after the last index written
+                        exp, last = [], None
+                        for _ in exp_order:
+                            off = 0 if last is None else last + 1
+                            exp += [off, off + 1]
+                            last = exp[-1]
+                        if io != exp:
+                            fails.append("index_online of the joined file "
+                                         "is %r, expected %r (%d inputs)" %
+                                         (io, exp, n))
+                            return _res(fails, "join|index_online")
                 key = "join|wrong-order-or-features"
     finally:
         W.version = old
